@@ -31,6 +31,8 @@ CASES=[
  ('eced17a',['C11','C09'],'R48'),
  ('b877043',['C07','C10'],'R41'),
  ('7c7d223',['C15','C20'],'R16'),
+ ('0b0e65d',['C20'],'R74'),
+ ('1035f39',['C20'],'R74'),
 ]
 def sh(*a, **k): return subprocess.run(a, capture_output=True, text=True, **k)
 def main():
